@@ -604,18 +604,16 @@ fn do_minimize(dfa: DFA) -> DFA {
         let all_states = dfa.get_all_states();
         let nonaccepting_states =
             [&all_states, &dfa.accepting_states, &dead_state_group].difference();
-        if nonaccepting_states.is_empty() {
-            // Nothing to minimize
-            return dfa;
+        // The initial partition consists of the non-empty groups only.
+        let mut initial_partition: HashSet<SetId> = Default::default();
+        initial_partition.insert(pool.intern(dead_state_group));
+        if !dfa.accepting_states.is_empty() {
+            initial_partition.insert(pool.intern(dfa.accepting_states.clone()));
         }
-        let nonaccepting_states_intern_id = pool.intern(nonaccepting_states);
-        let accepting_states_intern_id = pool.intern(dfa.accepting_states.clone());
-        let dead_state_intern_id = pool.intern(dead_state_group);
-        HashSet::from_iter([
-            dead_state_intern_id,
-            accepting_states_intern_id,
-            nonaccepting_states_intern_id,
-        ])
+        if !nonaccepting_states.is_empty() {
+            initial_partition.insert(pool.intern(nonaccepting_states));
+        }
+        initial_partition
     };
     let mut worklist = partitions.clone();
     let transitions_image = dfa.make_transitions_image();
